@@ -115,7 +115,7 @@ def _parse_unit(text, base_dir=None):
                         ex.after[-1][1].append(mc.group(1))
                     i += 1
                     continue
-                md = re.match(r"\s*//@\s+(\w+\*?)(.*)$", l2)
+                md = re.match(r"\s*//@\s+(\w+[*?]?)(.*)$", l2)
                 if not md:
                     if l2.strip() == "" or l2.strip().startswith("//"):
                         i += 1
@@ -136,15 +136,19 @@ def _parse_unit(text, base_dir=None):
                     cur = ("loop", n)
                 elif k == "at_start":
                     cur = ("at_start", None)
-                elif k in ("before", "after", "before*", "after*"):
+                elif k in ("before", "after", "before*", "after*", "before?", "after?"):
                     ma = re.match(r"`(.*)`\s*:?\s*$", rest)
                     if not ma:
                         raise ValueError("bad %s directive: %r" % (k, l2))
                     anc = ma.group(1).replace("\\n", "\n").replace("\\t", "\t")
                     if k.endswith("*"):
                         anc = "*" + anc  # leading `*`: splice at EVERY occurrence (at least one)
+                    if k.endswith("?"):
+                        # leading `?`: an EXIT ASSERTION that only exists while this exit is textually there; when the
+                        # anchor is gone the splice is dropped and the function's postconditions alone decide the new text
+                        anc = "?" + anc
                     (ex.before if k.startswith("before") else ex.after).append((anc, []))
-                    cur = (k.rstrip("*"), None)
+                    cur = (k.rstrip("*?"), None)
                 elif k == "rewrite" or k == "sigrewrite":
                     ma = re.match(r"`(.*)` => `(.*)`(?:\s+x(\d+|\?))?\s*$", rest)
                     if not ma:
@@ -593,6 +597,12 @@ def transform(ex, src):
             inserts.append((lp[n - 1], "\n" + "".join("        " + l + "\n" for l in txt.rstrip("\n").split("\n")) + "    "))
         record["transformations"].append("T2 loop contracts on loops %s" % sorted(ex.loops))
     def _occurrences(anc):
+        if anc.startswith("?"):
+            a = anc[1:]
+            if body.count(a) != 1:
+                record.setdefault("dropped_optional_splices", []).append(a)
+                return []
+            return [body.index(a)]
         if anc.startswith("*"):
             a = anc[1:]
             if body.count(a) < 1:
